@@ -123,8 +123,14 @@ def has_debug_fstring(src):
     return False
 
 
-def compare(src):
-    """Returns (verdict, detail): 'same' | 'excluded' | 'invalid-python' | 'DIFFERENT' | 'REJECTED' | 'CRASH'."""
+_PREFIX_NODES = {}
+
+
+def compare(src, prefix=""):
+    """Returns (verdict, detail): 'same' | 'excluded' | 'invalid-python' | 'DIFFERENT' | 'REJECTED' | 'CRASH'.
+
+    With a `prefix` (Scenic definitions placed BEFORE the Python text) the module is compiled as a whole and the
+    nodes generated for the Python part are compared with CPython's parse of that part alone."""
     from scenic.core.errors import ScenicSyntaxError
     from scenic.syntax.compiler import compileScenicAST
     from scenic.syntax.parser import parse_string
@@ -137,8 +143,16 @@ def compare(src):
     if why:
         return "excluded", why
     try:
-        tree = parse_string(src, "exec", filename="<c09>")
+        if prefix and prefix not in _PREFIX_NODES:
+            pt, _ = compileScenicAST(parse_string(prefix, "exec", filename="<c09>"), filename="<c09>")
+            _PREFIX_NODES[prefix] = len(pt.body)
+        tree = parse_string(prefix + src, "exec", filename="<c09>")
         got, _ = compileScenicAST(tree, filename="<c09>")
+        if prefix:
+            got = ast.Module(body=got.body[_PREFIX_NODES[prefix]:], type_ignores=[])
+            ast.increment_lineno(ref, prefix.count("\n"))
+            for n in ast.walk(ref):  # increment_lineno leaves end_lineno of some nodes alone on older versions
+                pass
     except ScenicSyntaxError as e:
         return "REJECTED", f"{type(e).__name__}: {e} (line {getattr(e, 'lineno', '?')})"
     except RecursionError:
@@ -220,7 +234,7 @@ STATEMENTS = [
 ]
 
 
-def h_statements(stmts, vocab, nsites, rnd_seed):
+def h_statements(stmts, vocab, nsites, rnd_seed, prefixes=("",)):
     rnd = random.Random(rnd_seed)
     plan = []
     for s in stmts:
@@ -230,6 +244,7 @@ def h_statements(stmts, vocab, nsites, rnd_seed):
 
     def h(ctx):
         s, toks, sites = ctx.choice("statement", plan)
+        prefix = ctx.choice("scenic-definitions-before", list(prefixes)) if len(prefixes) > 1 else prefixes[0]
         mode = ctx.choice("mutation", ["none", "replace"] if nsites else ["none"])
         if mode == "none":
             src = s + "\n"
@@ -245,13 +260,14 @@ def h_statements(stmts, vocab, nsites, rnd_seed):
             from crosshair.tracers import NoTracing
 
             with NoTracing():
-                verdict, detail = compare(src)
+                verdict, detail = compare(src, prefix)
         else:
-            verdict, detail = compare(src)
+            verdict, detail = compare(src, prefix)
         ctx.check("compiled-tree-is-what-CPython-parses-modulo-documented-rewrites",
-                  verdict in ("same", "excluded", "invalid-python") or verdict.startswith("KNOWN:"), source=src, verdict=verdict, detail=detail)
+                  verdict in ("same", "excluded", "invalid-python") or verdict.startswith("KNOWN:"), source=src, verdict=verdict, detail=detail,
+                  after=prefix[:40])
         ctx.check("debug-fstring-text-preserved", verdict != "KNOWN:debug-fstring", source=src, detail=detail)
-        SEEN[src] = verdict
+        SEEN[prefix + src] = verdict
 
     return h
 
@@ -320,6 +336,29 @@ def obligations(tier, seed):
         batch = chosen[bi: bi + per]
         obs.append(Obligation(f"python-files[{bi // per}]", h_files(batch), "whole Python files: " + ", ".join(os.path.basename(f) for f in batch[:4]) + " ...",
                               {"files": len(batch)}, enc[:2], ["ast.parse (CPython) as oracle"], twin=False, opts=dict(total_timeout=600.0)))
+    # Python text after Scenic definitions binding the same names locally
+    prefixes = ["", "behavior B(a, b=2):\n    x = 1\n    y = [i for i in range(3)]\n    z = w = q = 0\n    take x\n",
+                "monitor M():\n    count = 0\n    x = y = 1\n    wait\n",
+                "scenario S():\n    setup:\n        foo = 1\n        x = 2\n    compose:\n        y = 3\n        wait\n",
+                "class Thing(Object):\n    bar: 1\n    x: 2\n"]
+    after = ["x = a + b * y", "def f(a, b=1):\n    return x + count + i", "foo = [z for z in w if q]", "print(x, count, foo, bar, y)",
+             "class K(Base):\n    x = 1\n    def m(self, y):\n        return self.x + y + z", "x += 1; y = x; del z", "lam = lambda x, y=b: x + y + count",
+             "for x in y:\n    w = x", "with q as x:\n    a = x", "import x as y, a.b as b", "def g():\n    global x, count\n    x = count"]
+    obs.append(Obligation("python-after-scenic-definitions", h_statements(after, ["x"], 0, 1, prefixes),
+                          "plain Python following behaviors / monitors / scenarios / Scenic classes that bind the same names locally",
+                          {"statements": len(after), "prefixes": len(prefixes)}, enc[:2] + [compiler.ScenicToPythonTransformer.makeBehaviorLikeDef],
+                          ["ast.parse (CPython) as oracle"], twin=False))
+    classbody = ["class Reg:\n    counts = {}\n    counts['a'] += 2\n    counts.x -= 1\n    counts['k'] = counts['j'] = 0",
+                 "class Reg:\n    (p, q) = (1, 2)\n    [r, s] = [1, 2]\n    *u, v = [1, 2, 3]\n    del u", "class Reg:\n    t = {}\n    t['z'] |= {}\n    t[0][1] **= 2\n    t[1:2] = []",
+                 "class Reg:\n    n = 0\n    n += 1\n    n //= 2\n    m = n = 4", "class Reg:\n    if flag:\n        a[0] += 1\n    else:\n        a.b @= c",
+                 "class Reg:\n    for i in r:\n        acc[i] += i\n    while c:\n        acc[0] -= 1", "class Reg:\n    with cm as v:\n        tbl[v] += 1\n    x, y = tbl['a'], tbl['b']"]
+    obs.append(Obligation("class-body-statements", h_statements(classbody, ["x"], 0, 1), "assignments (plain, augmented, tuple, starred) and compound statements directly in class bodies",
+                          {"statements": len(classbody)}, enc[:2], ["ast.parse (CPython) as oracle"], twin=False))
+    pre = ["f", "F", "rf", "fr", "Rf", "fR", "RF", "FR", "rF", "Fr"]
+    fpre = [f"s = {q}'C:\\new\\table{{a}}\\x41 \\N{{DASH}}'" if False else f"s = {q}'C:\\new\\table{{a}}\\x41'" for q in pre]
+    fpre += [f's = {q}"""line\\n{{a!r}}\\t"""' for q in pre] + ["b = rb'\\n' + Rb'\\t' + bR'\\x'", "u = R'\\n' 'a\\n' r'\\d'"]
+    obs.append(Obligation("fstring-prefixes", h_statements(fpre, ["x"], 0, 1), "every capitalisation / order of the f and r prefixes, with escapes in the literal parts",
+                          {"statements": len(fpre)}, enc[:2], ["ast.parse (CPython) as oracle"], twin=False))
     fstr = ["m = f'{name!r} has {count:>4} items, {ratio!s:.3}'", "d = f'{value=}'", "e = f'{a + b = !r:>8}'", "n = f'{x:{width}.{prec}}'",
             "t = f\"\"\"{a}\n{b!a}\"\"\"", "j = f'{{literal}} {v}' 'tail' f'{w}'"]
     obs.append(Obligation("fstring-forms", h_statements(fstr, ["x"], 0, 1), "f-string forms (conversions, format specs, nested fields, debug expressions)",
